@@ -436,7 +436,33 @@ pub fn execute(exe: &Path, sc: &BScenario, dir: &Path) -> BReport {
     rep
 }
 
+const POPT_POOL: &[(&str, &[&str])] = &[
+    ("yacckind", &["Grmtools", "Original(GenericParseTree)"]),
+    ("recoverer", &["None", "CPCTPlus"]),
+    ("visibility", &["Private", "Public", "PublicSuper", "PublicSelf", "PublicCrate", "PublicIn:crate::parsers", "PublicIn:crate::frontend"]),
+    ("rust_edition", &["2015", "2018", "2021"]),
+    ("mod_name", &["custom_y", "other_y", "g_y"]),
+    ("error_on_conflicts", &["true", "false"]),
+    ("warnings_are_errors", &["true", "false"]),
+    ("show_warnings", &["true", "false"]),
+    ("serialisation_format", &["FixedSizeInteger", "VariableSizedInteger"]),
+];
+const LOPT_POOL: &[(&str, &[&str])] = &[
+    ("visibility", &["Private", "Public", "PublicSuper", "PublicSelf", "PublicCrate", "PublicIn:crate::parsers", "PublicIn:crate::frontend"]),
+    ("rust_edition", &["2015", "2018", "2021"]),
+    ("mod_name", &["custom_l", "other_l", "g_l"]),
+    ("allow_missing_terms_in_lexer", &["true", "false"]),
+    ("allow_missing_tokens_in_parser", &["true", "false"]),
+    ("case_insensitive", &["true", "false"]),
+    ("dot_matches_new_line", &["true", "false"]),
+    ("warnings_are_errors", &["true", "false"]),
+];
+
 pub fn generate(r: &mut Rng, max_ops: usize) -> BScenario {
+    // swarm: half of the histories keep returning to one parser option and one lexer option, so
+    // that the same key takes several different values between builds
+    let focus_p = if r.chance(50) { Some(r.below(POPT_POOL.len() as u64) as usize) } else { None };
+    let focus_l = if r.chance(50) { Some(r.below(LOPT_POOL.len() as u64) as usize) } else { None };
     let n = 3 + r.below(max_ops as u64 - 2) as usize;
     let mut ops = vec![];
     let ticks = [0u64, 1, 1_000, 1_000_000_000, 3_600_000_000_000];
@@ -455,31 +481,12 @@ pub fn generate(r: &mut Rng, max_ops: usize) -> BScenario {
             20..=27 => Op::EditLexer(r.pick(LEXERS).0.to_string()),
             28..=31 => Op::EditLexer(r.pick(BROKEN_LEXERS).0.to_string()),
             32..=45 => {
-                let (k, vals): (&str, &[&str]) = *r.pick(&[
-                    ("yacckind", &["Grmtools", "Original(GenericParseTree)"][..]),
-                    ("recoverer", &["None", "CPCTPlus"][..]),
-                    ("visibility", &["Private", "Public", "PublicSuper", "PublicCrate"][..]),
-                    ("rust_edition", &["2015", "2018", "2021"][..]),
-                    ("mod_name", &["custom_y", "other_y"][..]),
-                    ("error_on_conflicts", &["true", "false"][..]),
-                    ("warnings_are_errors", &["true", "false"][..]),
-                    ("show_warnings", &["true", "false"][..]),
-                    ("serialisation_format", &["FixedSizeInteger", "VariableSizedInteger"][..]),
-                ]);
+                let (k, vals): (&str, &[&str]) = if let (Some(f), true) = (focus_p, r.chance(65)) { POPT_POOL[f] } else { *r.pick(POPT_POOL) };
                 let unset_ok = matches!(k, "yacckind" | "recoverer" | "mod_name");
                 Op::SetParserOpt(k.to_string(), if unset_ok && r.chance(30) { None } else { Some(r.pick(vals).to_string()) })
             }
             46..=53 => {
-                let (k, vals): (&str, &[&str]) = *r.pick(&[
-                    ("visibility", &["Private", "Public", "PublicSuper", "PublicCrate"][..]),
-                    ("rust_edition", &["2015", "2018", "2021"][..]),
-                    ("mod_name", &["custom_l", "other_l"][..]),
-                    ("allow_missing_terms_in_lexer", &["true", "false"][..]),
-                    ("allow_missing_tokens_in_parser", &["true", "false"][..]),
-                    ("case_insensitive", &["true", "false"][..]),
-                    ("dot_matches_new_line", &["true", "false"][..]),
-                    ("warnings_are_errors", &["true", "false"][..]),
-                ]);
+                let (k, vals): (&str, &[&str]) = if let (Some(f), true) = (focus_l, r.chance(65)) { LOPT_POOL[f] } else { *r.pick(LOPT_POOL) };
                 Op::SetLexerOpt(k.to_string(), if k == "mod_name" && r.chance(30) { None } else { Some(r.pick(vals).to_string()) })
             }
             54..=56 => Op::SetFlow(r.pick(&["combined", "two-step"]).to_string()),
